@@ -123,7 +123,7 @@ def run(ctx):
     from rules import C18
     leaves = C18.table_of(ctx, F, 'C02.R6')
     if leaves is not None:
-        for v in C18.valuations():
+        for v in C18.valuations(leaves):
             hits = C18.lookup(leaves, v)
             res = hits[0] if len(hits) == 1 else 'ambiguous'
             exp = C18.oracle(v)
